@@ -284,8 +284,21 @@ fn main() {
         for l in std::fs::read_to_string(&args[4]).expect("focus list").lines() { if !l.trim().is_empty() { only.insert(l.trim().to_string()); } }
         boost = args[5].parse().expect("boost");
     }
+    // … [<file with lines `raw <hex>` / `val <hex>`: explicit inputs added to every probe set]
+    let mut extra_raws = Vec::new();
+    let mut extra_vals = Vec::new();
+    if args.len() > 6 {
+        for l in std::fs::read_to_string(&args[6]).expect("extra inputs").lines() {
+            let w: Vec<&str> = l.split_whitespace().collect();
+            if w.len() == 2 {
+                if let Ok(x) = u128::from_str_radix(w[1].trim_start_matches("0x"), 16) {
+                    if w[0] == "raw" { extra_raws.push(x); } else if w[0] == "val" { extra_vals.push(x); }
+                }
+            }
+        }
+    }
     std::panic::set_hook(Box::new(|_| {}));
-    let mut o = support::Out { w: std::io::BufWriter::new(out), seed, tier_thorough: thorough, lines: 0, only, boost };
+    let mut o = support::Out { w: std::io::BufWriter::new(out), seed, tier_thorough: thorough, lines: 0, only, boost, extra_raws, extra_vals };
 %s
     use std::io::Write;
     o.w.flush().unwrap();
@@ -605,6 +618,9 @@ def _build_and_run(tier, seed, profiles, decls_override=None):
             if w[0] == "nfterm":
                 nf_terms.setdefault(" ".join(w[3:]), (w[1], w[2]))
                 continue
+            if w[0] == "nfwitness":
+                nf.setdefault("witnesses", []).append(w[1:])
+                continue
             if w[0] != "nfres":
                 continue
             key = (w[1], w[2])
@@ -865,13 +881,26 @@ def _build_and_run(tier, seed, profiles, decls_override=None):
         write(lst, "\n".join(suspects) + "\n")
         out_path = os.path.join(WORK_ROOT, "ops-focus.txt")
         boost = 4000 if tier == "thorough" else 600
-        rp = subprocess.run([exe, out_path, str(seed + 1), tier, lst, str(boost)], stdout=subprocess.PIPE, stderr=subprocess.PIPE, text=True)
+        # distinguishing inputs proposed by the normaliser for bodies whose normal form differs from the model's
+        extra = os.path.join(WORK_ROOT, "focus-extra.txt")
+        ex_lines = []
+        for wt in ast.get("nf", {}).get("witnesses", []):
+            if wt[0] in suspects:
+                for kv in wt[2:]:
+                    if kv.startswith("raw="):
+                        ex_lines.append("raw " + kv[4:])
+                    elif kv.startswith("val="):
+                        ex_lines.append("val " + kv[4:])
+        ex_lines = sorted(set(ex_lines))[:400]
+        write(extra, "\n".join(ex_lines) + "\n")
+        focus["proposed_inputs"] = len(ex_lines)
+        rp = subprocess.run([exe, out_path, str(seed + 1), tier, lst, str(boost), extra], stdout=subprocess.PIPE, stderr=subprocess.PIPE, text=True)
         log("focus runner rc=%d %s on %d declarations" % (rp.returncode, rp.stdout.strip(), len(suspects)))
         if rp.returncode == 0:
             with open(out_path) as f:
                 op_lines = [l for l in f.read().splitlines() if l.startswith("op ")]
             out = run_driver(proto + nf_lines + ["profile chk=1"] + op_lines + ["stats"])
-            focus = {"declarations": suspects, "ops": len(op_lines),
+            focus = {"declarations": suspects, "ops": len(op_lines), "proposed_inputs": focus.get("proposed_inputs", 0),
                      "mismatches": pick_mismatches(out, 1000)}
     timing["focus_s"] = time.time() - t0
 
